@@ -19,6 +19,7 @@ Runtime service facility.
 """
 import asyncio
 import logging
+import threading
 import typing
 import uuid
 from concurrent import futures
@@ -170,6 +171,7 @@ class Wrapper:
         self._processes: Wrapper.Executor = self.Executor(futures.ProcessPoolExecutor(max_workers), loop)
         self._threads: Wrapper.Executor = self.Executor(futures.ThreadPoolExecutor(max_workers), loop)
         self._descriptors: dict[str, typing.Optional['appmod.Descriptor']] = {}
+        self._loading: threading.Lock = threading.Lock()  # descriptors get loaded by importing their modules
 
     def _get_descriptor(self, application: str) -> 'appmod.Descriptor':
         """Get the application descriptor.
@@ -180,14 +182,15 @@ class Wrapper:
         Returns:
             Application descriptor.
         """
-        if application not in self._descriptors:
-            updates = set(self._inventory.list()).difference(self._descriptors)
-            self._descriptors.update({a: None for a in updates})
-            if application not in self._descriptors:  # not just in *our* updates - a concurrent request may have added it
-                raise forml.MissingError(f'Application {application} not found in {self._registry}')
-        if not self._descriptors[application]:
-            self._descriptors[application] = self._inventory.get(application)
-        return self._descriptors[application]
+        with self._loading:  # concurrent first requests: the module import behind inventory.get is not thread-safe
+            if application not in self._descriptors:
+                updates = set(self._inventory.list()).difference(self._descriptors)
+                self._descriptors.update({a: None for a in updates})
+                if application not in self._descriptors:
+                    raise forml.MissingError(f'Application {application} not found in {self._registry}')
+            if not self._descriptors[application]:
+                self._descriptors[application] = self._inventory.get(application)
+            return self._descriptors[application]
 
     @staticmethod
     def _dispatch(
